@@ -49,7 +49,12 @@ def kind_of(obj) -> str:
 
 
 def _fdt(variant):
-    return np.float64 if variant.get("dtype") == "f8" else np.float32
+    """dtype of the float arrays handed to the library: float32 / float64, native or big-endian"""
+    return np.dtype(variant.get("endian", "<") + ("f8" if variant.get("dtype") == "f8" else "f4"))
+
+
+def _idt(variant, code):
+    return np.dtype(variant.get("endian", "<") + code)
 
 
 def _frames_array(frames, width, dt):
@@ -61,11 +66,25 @@ def _frames_array(frames, width, dt):
     return a
 
 
+def _order(a, variant):
+    """same values, other memory layout: Fortran order or a strided view into a larger buffer"""
+    o = variant.get("order", "C")
+    a = np.asarray(a)
+    if o == "F" and a.ndim >= 2:
+        return np.asfortranarray(a)
+    if o == "strided" and a.ndim >= 1 and a.size:
+        big = np.zeros(tuple(2 * d for d in a.shape), dtype=a.dtype)
+        view = big[tuple(slice(None, None, 2) for _ in a.shape)]
+        view[...] = a
+        return view
+    return a
+
+
 def _vp(vals, variant):
-    o = np.array(vals[:2], dtype=np.int32)
-    s = np.array(vals[2:], dtype=np.int32)
+    o = np.array(vals[:2], dtype=_idt(variant, "i4"))
+    s = np.array(vals[2:], dtype=_idt(variant, "i4"))
     if variant.get("vp") == "array22":
-        return np.array([vals[:2], vals[2:]], dtype=np.int32)
+        return np.array([vals[:2], vals[2:]], dtype=_idt(variant, "i4"))
     return tdfTypes.CameraViewPort(o, s)
 
 
@@ -73,33 +92,34 @@ def build_item(kind, it, variant, spec=None):
     """one nested item (track / signal / platform / camera / channel / event)"""
     dt = _fdt(variant)
     if kind == "data3D":
-        return tdfData3D.MarkerTrack(it["label"], _frames_array(it["frames"], 3, dt))
+        return tdfData3D.MarkerTrack(it["label"], _order(_frames_array(it["frames"], 3, dt), variant))
     if kind == "emg":
-        return tdfEMG.EMGTrack(it["label"], _frames_array(it["frames"], 1, dt))
+        return tdfEMG.EMGTrack(it["label"], _order(_frames_array(it["frames"], 1, dt), variant))
     if kind == "force3D":
         a = _frames_array(it["frames"], 9, dt)
-        return tdfForce3D.ForceTorqueTrack(it["label"], np.ascontiguousarray(a[:, 0:3]),
-                                           np.ascontiguousarray(a[:, 3:6]),
-                                           np.ascontiguousarray(a[:, 6:9]))
+        return tdfForce3D.ForceTorqueTrack(it["label"], _order(np.ascontiguousarray(a[:, 0:3]), variant),
+                                           _order(np.ascontiguousarray(a[:, 3:6]), variant),
+                                           _order(np.ascontiguousarray(a[:, 6:9]), variant))
     if kind == "platData":
         a = _frames_array(it["frames"], 6, dt)
-        return tdfForcePlatformsData.ForcePlatformData(np.ascontiguousarray(a[:, 0:2]),
-                                                       np.ascontiguousarray(a[:, 2:5]),
-                                                       np.ascontiguousarray(a[:, 5]))
+        return tdfForcePlatformsData.ForcePlatformData(_order(np.ascontiguousarray(a[:, 0:2]), variant),
+                                                       _order(np.ascontiguousarray(a[:, 2:5]), variant),
+                                                       _order(np.ascontiguousarray(a[:, 5]), variant))
     if kind == "platCal":
         return tdfForcePlatformsCalibration.ForcePlatformInfo(
-            it["label"], np.array(it["size"], dtype=dt), np.array(it["position"], dtype=dt).reshape(4, 3))
+            it["label"], _order(np.array(it["size"], dtype=dt), variant),
+            _order(np.array(it["position"], dtype=dt).reshape(4, 3), variant))
     if kind == "calib":
         if "radial" in it:
             return tdfCalibrationData.SeelabCameraData(
-                np.array(it["rot"], dtype=np.float64).reshape(3, 3), np.array(it["trans"], dtype=np.float64),
-                np.array(it["focus"], dtype=np.float64), np.array(it["center"], dtype=np.float64),
-                np.array(it["radial"], dtype=np.float64), np.array(it["decentering"], dtype=np.float64),
-                np.array(it["thinprism"], dtype=np.float64), _vp(it["vp"], variant))
+                _order(np.array(it["rot"], dtype=np.dtype(variant.get("endian", "<") + "f8")).reshape(3, 3), variant), _order(np.array(it["trans"], dtype=np.dtype(variant.get("endian", "<") + "f8")), variant),
+                np.array(it["focus"], dtype=np.dtype(variant.get("endian", "<") + "f8")), np.array(it["center"], dtype=np.dtype(variant.get("endian", "<") + "f8")),
+                np.array(it["radial"], dtype=np.dtype(variant.get("endian", "<") + "f8")), np.array(it["decentering"], dtype=np.dtype(variant.get("endian", "<") + "f8")),
+                np.array(it["thinprism"], dtype=np.dtype(variant.get("endian", "<") + "f8")), _vp(it["vp"], variant))
         return tdfCalibrationData.BTSCameraData(
-            np.array(it["rot"], dtype=np.float64).reshape(3, 3), np.array(it["trans"], dtype=np.float64),
-            np.array(it["focus"], dtype=np.float64), np.array(it["center"], dtype=np.float64),
-            np.array(it["xcoef"], dtype=np.float64), np.array(it["ycoef"], dtype=np.float64),
+            _order(np.array(it["rot"], dtype=np.dtype(variant.get("endian", "<") + "f8")).reshape(3, 3), variant), _order(np.array(it["trans"], dtype=np.dtype(variant.get("endian", "<") + "f8")), variant),
+            np.array(it["focus"], dtype=np.dtype(variant.get("endian", "<") + "f8")), np.array(it["center"], dtype=np.dtype(variant.get("endian", "<") + "f8")),
+            np.array(it["xcoef"], dtype=np.dtype(variant.get("endian", "<") + "f8")), np.array(it["ycoef"], dtype=np.dtype(variant.get("endian", "<") + "f8")),
             _vp(it["vp"], variant))
     if kind == "optical":
         return tdfOpticalSystem.OpticalChannelData(it["index"], it["lens"], it["type"], it["name"],
@@ -109,7 +129,7 @@ def build_item(kind, it, variant, spec=None):
         if variant.get("evvals") == "f4array":
             vals = np.array(vals, dtype="<f4")
         elif variant.get("evvals") == "f8array":
-            vals = np.array(vals, dtype=np.float64)
+            vals = np.array(vals, dtype=np.dtype(variant.get("endian", "<") + "f8"))
         return tdfEvents.Event(it["label"], vals, tdfEvents.EventsDataType(it["type"]))
     raise KeyError(kind)
 
@@ -120,8 +140,9 @@ def build(spec, variant=None):
     t = spec["t"]
     dt = _fdt(variant)
     if t == "data3D":
-        b = tdfData3D.Data3D(spec["frequency"], spec["nFrames"], np.array(spec["volume"], dtype=dt),
-                             np.array(spec["rot"], dtype=dt).reshape(3, 3), np.array(spec["trans"], dtype=dt),
+        b = tdfData3D.Data3D(spec["frequency"], spec["nFrames"], _order(np.array(spec["volume"], dtype=dt), variant),
+                             _order(np.array(spec["rot"], dtype=dt).reshape(3, 3), variant),
+                             _order(np.array(spec["trans"], dtype=dt), variant),
                              spec["startTime"], tdfData3D.Flags(spec["flag"]),
                              tdfData3D.Data3dBlockFormat(spec["format"]))
         if spec["format"] == 1 and (spec["links"] or variant.get("links_attr", True)):
@@ -143,9 +164,9 @@ def build(spec, variant=None):
             b.addSignal(build_item(t, it, variant), channel=c)
         return b
     if t == "force3D":
-        b = tdfForce3D.ForceTorque3D(spec["frequency"], spec["nFrames"], np.array(spec["volume"], dtype=dt),
-                                     np.array(spec["rot"], dtype=dt).reshape(3, 3),
-                                     np.array(spec["trans"], dtype=dt), spec["startTime"],
+        b = tdfForce3D.ForceTorque3D(spec["frequency"], spec["nFrames"], _order(np.array(spec["volume"], dtype=dt), variant),
+                                     _order(np.array(spec["rot"], dtype=dt).reshape(3, 3), variant),
+                                     _order(np.array(spec["trans"], dtype=dt), variant), spec["startTime"],
                                      tdfForce3D.ForceTorque3DBlockFormat(spec["format"]))
         items = [build_item(t, it, variant) for it in spec["tracks"]]
         if variant.get("via") == "assign":
@@ -174,15 +195,15 @@ def build(spec, variant=None):
         for fr in range(spec["nFrames"]):
             for cam in range(spec["nCams"]):
                 c = spec["cells"][fr][cam]
-                cells[fr, cam] = None if c is None else np.array(c, dtype=dt).reshape(len(c), 2)
+                cells[fr, cam] = None if c is None else _order(np.array(c, dtype=dt).reshape(len(c), 2), variant)
         b.data = cells
         b._camMap = list(spec["map"])  # no public setter exists (tests/test_data2D.py does the same)
         return b
     if t == "calib":
         return tdfCalibrationData.CalibrationDataBlock(
-            tdfCalibrationData.DistorsionModel(spec["model"]), np.array(spec["volume"], dtype=dt),
-            np.array(spec["rot"], dtype=dt).reshape(3, 3), np.array(spec["trans"], dtype=dt),
-            np.array(spec["map"], dtype=np.int16), [build_item(t, it, variant) for it in spec["cams"]],
+            tdfCalibrationData.DistorsionModel(spec["model"]), _order(np.array(spec["volume"], dtype=dt), variant),
+            _order(np.array(spec["rot"], dtype=dt).reshape(3, 3), variant), _order(np.array(spec["trans"], dtype=dt), variant),
+            np.array(spec["map"], dtype=_idt(variant, "i2")), [build_item(t, it, variant) for it in spec["cams"]],
             tdfCalibrationData.CalibrationDataBlockFormat(spec["format"]))
     if t == "optical":
         return tdfOpticalSystem.OpticalSetupBlock(
